@@ -76,6 +76,7 @@ class Obj:
         self.compiles = 0
         self.children: dict[str, "Obj"] = {}
         self.real = None
+        self.serial = None        # identity of the instance last returned
         self.ever_cooked = False
         self.count_unknown = False
         self.fmt = None
@@ -97,16 +98,31 @@ class C16(CheckBase):
         self.zt = zt
         self.TemplateLoader = TemplateLoader
         counting = {}
+        serials = [0]
+
+        def serial_of(t):
+            # (identity that survives the death of an instance: an id() can
+            # be handed out again)
+            s_ = t.__dict__.get("_v_serial")
+            if s_ is None:
+                serials[0] += 1
+                s_ = t.__dict__["_v_serial"] = serials[0]
+            return s_
 
         class CountingFile(zt.PageTemplateFile):
             def cook(self, body):
-                counting[id(self)] = counting.get(id(self), 0) + 1
+                k_ = serial_of(self)
+                counting[k_] = counting.get(k_, 0) + 1
                 return super().cook(body)
 
         class CountingText(zt.PageTextTemplateFile):
             def cook(self, body):
-                counting[id(self)] = counting.get(id(self), 0) + 1
+                k_ = serial_of(self)
+                counting[k_] = counting.get(k_, 0) + 1
                 return super().cook(body)
+
+        self.serial_of = serial_of
+        self.serials = serials
 
         self.CountingFile = CountingFile
         self.CountingText = CountingText
@@ -185,7 +201,8 @@ class C16(CheckBase):
             k = ch.weighted([(5, "write"), (2, "touch"), (1, "delete"),
                              (7, "render"), (3, "names"), (3, "use"),
                              (2, "ctype"), (4, "load"), (1, "absload"),
-                             (1, "pkgload"), (1, "retarget")], "op")
+                             (1, "pkgload"), (1, "retarget"), (2, "gc")],
+                            "op")
             dt = ch.weighted([(3, 1.0), (2, 0.0), (2, 0.001), (1, 3600.0),
                               (1, -5.0), (1, 86400.0 * 400), (1, -0.001)],
                              "dt")
@@ -221,6 +238,8 @@ class C16(CheckBase):
                     # bound to a template class (loader.bind(cls))
                     ops[-1].append("bind")
                     ops[-1][3] = ch.pick(["text", "xml"])
+            elif k == "gc":
+                ops.append(["gc"])
             elif k == "retarget":
                 # assign template.filename: the object must follow the
                 # other file from now on
@@ -381,6 +400,8 @@ class C16(CheckBase):
         server = world.new_proc("S")
         counting = self.counting
         counting.clear()
+        self.serials[0] = 0
+        serial_of = self.serial_of
 
         objs: list[Obj] = []
         with world.as_proc(server):
@@ -613,14 +634,14 @@ class C16(CheckBase):
                 ob.version = None if broken(cur[0], ob.fmt) else cur[0]
                 ob.ever_cooked = True
                 ob.children.clear()
-                ob.compiles = counting.get(id(ob.real), 0)
+                ob.compiles = counting.get(serial_of(ob.real), 0)
                 ob.count_unknown = False
             else:
                 cover.add("tainted-use-checked")
             return True
 
         def count_check(i, op, ob: Obj):
-            real_n = counting.get(id(ob.real), 0)
+            real_n = counting.get(serial_of(ob.real), 0)
             if ob.count_unknown:
                 ob.count_unknown = False
                 ob.compiles = real_n
@@ -656,6 +677,21 @@ class C16(CheckBase):
                         real.remove(full(op[1]))
                     del fsm[op[1]]
                 log.add("op", i, "delete", op[1])
+                continue
+            if k == "gc":
+                # The caller keeps none of the templates it got from the
+                # loader, and the collector runs (automatic collection is
+                # off in the simulation: *when* it runs is a seeded event).
+                # Whatever is loaded again afterwards must be the instance
+                # that was returned before, in the state it was in.
+                for lo_ in loaded.values():
+                    lo_.real = None
+                t = got = c = ob = lo = None      # noqa: F841
+                with world.harness():
+                    import gc
+                    gc.collect()
+                cover.add("gc")
+                log.add("op", i, "gc")
                 continue
             if k == "retarget":
                 ob = objs[op[1]]
@@ -819,6 +855,7 @@ class C16(CheckBase):
                         lo.fmt = "text" if fmt == "text" else None
                         if got[0] == "ok":
                             lo.real = got[1]
+                            lo.serial = serial_of(got[1])
                             loaded[lkey] = lo
                     if got[0] != "ok":
                         if not faulted:
@@ -830,12 +867,13 @@ class C16(CheckBase):
                     t = got[1]
                     want_fn = full(lo.path) if not os.path.isabs(lo.path) \
                         else lo.path
-                    if t is not lo.real:
+                    if serial_of(t) != lo.serial:
                         violations.append(self._v(
                             "loader-identity", i, op,
                             f"load({spec!r}) returned a different instance "
                             "than the previous load of the same name"))
-                        lo.real = t
+                        lo.serial = serial_of(t)
+                    lo.real = t
                     if os.path.normpath(str(t.filename)) != want_fn:
                         violations.append(self._v(
                             "loader-resolution", i, op,
